@@ -345,11 +345,9 @@ func (w *hWorld) checkSelect(g *hGroup, gi int, nt *componentdialer.NetworkType,
 		s.Failf("select-not-alive", "%s: returned node n%d which is not alive for any type tried", desc, w.nodeIdx(d))
 		return
 	}
-	if !isMinPolicy(pol) {
-		return
-	}
-	// min policies: the first type of the chain that has a candidate decides; no
-	// other alive node with a measurement may beat the chosen one by >= tolerance.
+	// the first type of the chain that has an alive candidate decides (documented
+	// fallback order); for the min policies no other alive node with a measurement
+	// may beat the chosen one by >= tolerance.
 	for _, t := range types {
 		set := g.g.MustGetAliveDialerSet(&t)
 		var cands []*hNode
@@ -370,7 +368,10 @@ func (w *hWorld) checkSelect(g *hGroup, gi int, nt *componentdialer.NetworkType,
 			}
 		}
 		if !in {
-			s.Failf("select-min-type-order", "%s: node n%d is not alive for %s, the first type tried that has alive candidates", desc, chosen.i, t.String())
+			s.Failf("select-type-order", "%s: node n%d is not alive for %s, the first type tried that has alive candidates", desc, chosen.i, t.String())
+			return
+		}
+		if !isMinPolicy(pol) {
 			return
 		}
 		if !chosen.hasLat[t.Index()] {
@@ -588,7 +589,7 @@ func healthScenario(s *verifsim.Sim) {
 	)
 	probeTypes := []int{0, 1, 2, 3} // dns-udp4/6, tcp4/6 (StandardHealthKeys order)
 	drawEv := func() ev {
-		e := ev{kind: T.Pick(6, 5, 1, 1, 4, 1, 2, 1, 3, 1, 1, 2, 1, 4), node: T.Choose(nNodes), typ: T.Choose(6), group: T.Choose(nGroups)}
+		e := ev{kind: T.Pick(6, 5, 1, 1, 4, 1, 2, 3, 3, 1, 1, 2, 1, 5), node: T.Choose(nNodes), typ: T.Choose(6), group: T.Choose(nGroups)}
 		switch e.kind {
 		case eProbeOK, eProbeFail, eProbeCanceled, eProbeSkip:
 			e.typ = probeTypes[T.Choose(4)]
